@@ -83,6 +83,8 @@ package keeper
 //@ callsite ConvertCoin [in-cache-context] goCtx == sdk.WrapSDKContext(cctx)
 // (stated over the decoded packet data and pure functions of it, not over the hook's temporaries, so that renaming or
 // removing a local cannot make the clause unevaluable)
+// the tokens go to the receiver's own EVM address: only a 20 byte account has one (BytesToAddress would crop or pad)
+//@ callsite ConvertCoin [receiver-has-an-evm-address] len(first(sdk.AccAddressFromBech32(data.Receiver))) == 20
 //@ callsite ConvertCoin [message] msg.Coin.Denom == first(types.IBCDenom(packet.DestinationPort, packet.DestinationChannel, data.Denom)) && msg.Coin.Amount == first(sdk.NewIntFromString(data.Amount)) && msg.Sender == first(sdk.AccAddressFromBech32(data.Receiver)).String() && msg.Receiver == common.BytesToAddress(first(sdk.AccAddressFromBech32(data.Receiver)).Bytes()).Hex()
 
 // ---- token-pair registry (C12) --------------------------------------------------------------------
